@@ -737,6 +737,10 @@ func (v *FV) ghostAssign(env *ExprEnv, st *State, text string) (err error) {
 	val := env.coerce(env.eval(re), gty, v.ghostSort(gty))
 	arr := "G_" + mangle(shortPkg(g.Owner)+"_"+g.Name)
 	v.regArray(arr, fmt.Sprintf("(Array Int %s)", v.ghostSort(gty)))
+	if v.eng.db.Stable[g.Owner+"."+g.Name] {
+		// a ghost field declared stable: no code writes it, it keeps its value across calls (only ghost assignments change it)
+		v.stableArrays[arr] = true
+	}
 	v.wr(st.snap, arr, base.T, val.T)
 	return nil
 }
